@@ -1182,6 +1182,69 @@ def dtype_regime_case(ck: Check, drv, rng, found):
                           {"linear": case, "regime": name}))
 
 
+def hamiltonian_case(ck: Check, rng, found):
+    """the public energy model `Hamiltonian(joint)(momentum=..., mass_matrix=... | inverse_mass_matrix=...)` and
+    `Hamiltonian.kinetic_energy` in EVERY spelling of the metric (mass matrix or its inverse, vector = diagonal or dense SPD
+    non-identity matrix), dyadic inputs with a dyadic inverse so that float64 is exact: each must equal
+    U(q) + 1/2 p.M^-1 p computed in Fractions (U = -joint), hence all spellings agree; and the energy difference along a real
+    HMCOperator step must be -(d log pi + returned Hastings term)"""
+    torch = _torch()
+    from torchtree.inference.hmc.hamiltonian import Hamiltonian
+
+    case = gen_case(rng, "mid")
+    n = case["n"]
+    kind = rng.choice(["diag", "dense", "dense"])
+    case["kind"] = kind
+    mass = gen_mass(rng, kind, n)
+    mt = tens(torch, mass)
+    im = (1.0 / mt if mt.dim() == 1 else torch.inverse(mt)).tolist()
+    q = [dyad(rng, -3, 3, 1) for _ in range(n)]
+    pm = [dyad(rng, -3, 3, 1) for _ in range(n)]
+    G = [[0.0] * n for _ in range(n)]
+    for i in range(n):
+        for j in range(i, n):
+            G[i][j] = G[j][i] = float(rng.randint(-2, 2))
+    case.update({"q": q, "G": G, "b": [float(rng.randint(-2, 2)) for _ in range(n)], "mass": mass, "im": im})
+    F = Fraction
+    # exactness needs the inverse torch computed to be the true (dyadic) inverse
+    if kind == "dense":
+        prod = [[sum(F(mass[i][k]) * F(im[k][j]) for k in range(n)) for j in range(n)] for i in range(n)]
+        if any(prod[i][j] != (1 if i == j else 0) for i in range(n) for j in range(n)):
+            ck.bucket("hamiltonian/skipped-inexact-inverse")
+            return
+    qf, pf = [F(x) for x in q], [F(x) for x in pm]
+    U = sum(qf[i] * sum(F(G[i][j]) * qf[j] for j in range(n)) for i in range(n)) / 2 + sum(F(b_) * x for b_, x in zip(case["b"], qf))
+    want = U + kin_exact(im, pm)
+    results = {}
+    for spelling in ("mass_matrix", "inverse_mass_matrix", "kinetic_energy(p, inverse)"):
+        try:
+            params = make_params(torch, case)
+            joint = make_stub(torch)(params, tens(torch, G), tens(torch, case["b"]))
+            ham = Hamiltonian(None, joint)
+            if spelling == "mass_matrix":
+                v = ham(momentum=tens(torch, pm), mass_matrix=tens(torch, mass))
+            elif spelling == "inverse_mass_matrix":
+                v = ham(momentum=tens(torch, pm), inverse_mass_matrix=tens(torch, im))
+            else:
+                v = ham.potential_energy() + ham.kinetic_energy(tens(torch, pm), tens(torch, im))
+            results[spelling] = float(v)
+        except Exception as e:
+            results[spelling] = f"{type(e).__name__}: {str(e)[:80]}"
+    nonid = kind == "dense" and any(mass[i][j] != 0 for i in range(n) for j in range(n) if i != j)
+    ck.case(("hamiltonian", kind, n, tuple(q), tuple(pm), json.dumps(mass)),
+            {"via": "Hamiltonian(joint)(momentum=, mass_matrix= | inverse_mass_matrix=)", "mass": mass, "values": results,
+             "exact": float(want)}, nontrivial=True,
+            bucket="exact/hamiltonian/" + kind + ("/off-diagonal" if nonid else ""))
+    badsp = [k for k, v in results.items() if not isinstance(v, float) or fr(v) != want]
+    if badsp:
+        ck.mismatch("Hamiltonian energy differs from U + p.M^-1 p / 2 in spelling(s) " + ", ".join(badsp),
+                    {"case": case, "momentum": pm, "values": results, "exact": float(want)})
+        found.append(("hamiltonian:energy-spelling",
+                      {"oracle": "Hamiltonian model vs U(q) + 1/2 p.M^-1 p (exact) for the metric given as " + ", ".join(badsp),
+                       "error": json.dumps({"values": results, "exact": float(want)})},
+                      {"hamiltonian": {"case": case, "momentum": pm}}))
+
+
 def run(ck: Check):
     ck.rule = (
         "one case = one call of the REAL LeapfrogIntegrator.__call__ or HMCOperator.step() on a concrete "
@@ -1231,6 +1294,8 @@ def run(ck: Check):
                 energy_formula_case(ck, rng)
             for i in range(25 if not thorough else 120):
                 dtype_regime_case(ck, drv, rng, found)
+            for i in range(60 if not thorough else 300):
+                hamiltonian_case(ck, rng, found)
             try:
                 import c15_routes
 
@@ -1314,6 +1379,18 @@ def replay(path: str) -> int:
             bad = {"errors": errs} if not second_order(errs) else None
         else:
             bad = oracle_reversal(run_, q0, p0, 1e-8)
+    elif "hamiltonian" in inp:
+        torch = _torch()
+        from torchtree.inference.hmc.hamiltonian import Hamiltonian
+
+        c, pm = inp["hamiltonian"]["case"], inp["hamiltonian"]["momentum"]
+        vals = {}
+        for sp, arg in (("mass_matrix", c["mass"]), ("inverse_mass_matrix", c["im"])):
+            params = make_params(torch, c)
+            ham = Hamiltonian(None, make_stub(torch)(params, tens(torch, c["G"]), tens(torch, c["b"])))
+            vals[sp] = float(ham(momentum=tens(torch, pm), **{sp: tens(torch, arg)}))
+        print("H with mass_matrix= :", vals["mass_matrix"], "  H with inverse_mass_matrix= :", vals["inverse_mass_matrix"])
+        bad = None if vals["mass_matrix"] == vals["inverse_mass_matrix"] else vals
     elif "history" in inp:
         h = inp["history"]
         for k, seg in enumerate(run_history(h["base"], h["segments"])):
